@@ -61,6 +61,29 @@ let reject_class = function RTooMany -> 0 | REmptyBatch -> 1 | REmptyId _ -> 2 |
 (* V1 outcome -> item outcome class *)
 let class_of_aout = function AT -> Some 0 | AFn | AFc -> Some 1 | AEc -> Some 5 | AEd -> Some 4 | AEo -> Some 9 | AFuel -> None
 
+(* Cross-check of extraction: with ORACLE_DUMP=<file> the values the EXTRACTED model computes for a
+   case (validation verdict, number of groups, DuplicateCheckCount, outcome code per correlation id in
+   the model's response order, under the request-order schedule and under the reversed one; the two
+   boolean hypotheses; in api mode the API response) are appended to that file before any comparison
+   with the implementation, and bin/coqreplay_c07.py recomputes the same numbers inside Coq. *)
+let dump_chan = match Sys.getenv_opt "ORACLE_DUMP" with
+  | Some p when p <> "" -> Some (open_out_gen [Open_append; Open_creat] 0o644 p)
+  | _ -> None
+let d_bytes (b : n list) = List.length b :: List.map int_of_n b
+let d_reject = function
+  | RTooMany -> [1] | REmptyBatch -> [2] | REmptyId i -> [3; int_of_nat i] | RDupId id -> 4 :: d_bytes id
+let d_resp n = function
+  | Rejected r -> d_reject r
+  | Results (rs, d) ->
+    [0; n - int_of_nat d; int_of_nat d; List.length rs] @
+    List.concat_map (fun (id, o) -> d_bytes id @ [int_of_out o]) rs
+  | Panic -> [5]
+let d_api = function
+  | ApiInvalidArgument -> [10]
+  | ApiValidationError r -> 11 :: d_reject r
+  | ApiResults rs -> 12 :: List.length rs :: List.concat_map (fun (id, a) -> d_bytes id @ [int_of_api_item a]) rs
+  | ApiPanic -> [13]
+
 type item = { id : string; key : int; cls : int; out : int; dupctx : bool; deep : int; refs : int list; v1 : value }
 
 let f _id vs =
@@ -83,6 +106,14 @@ let f _id vs =
     let lcg s k = List.init k (fun i -> (((s + i * 7919) * 2654435761 + 12345) land 0xffff) mod (k + 1)) in
     let scheds = [ []; List.init n (fun i -> n - 1 - i); lcg 17 n; lcg (n * 31 + 5) n ] in
     let scheds = List.map (List.map nat_of_int) scheds in
+    (match dump_chan with
+     | Some ch ->
+       let rev = List.map nat_of_int (List.init n (fun i -> n - 1 - i)) in
+       let nums = d_resp n (rec_batch maxn [] citems) @ d_resp n (rec_batch maxn rev citems) @
+                  [ (if rec_no_key_collision citems then 1 else 0); (if rec_check_respects citems then 1 else 0) ] @
+                  (if api then d_api (rec_api_batch maxn [] citems) else []) in
+       output_string ch (_id ^ " " ^ String.concat " " (List.map string_of_int nums) ^ "\n"); flush ch
+     | None -> ());
     (* V1 tolerance, lazily *)
     let v1set : (int, int list option) Hashtbl.t = Hashtbl.create 8 in
     let v1_of (idx : int) (it : item) : int list option =
